@@ -72,3 +72,33 @@ def plain_encodings_keep_verbatim_text(ctx, rule):
     else:
         ctx.holds(rule, f'{ctx.prog.module(tk).relpath}:1', f'{tk}.KernTokenizer.tokenize',
                   'the plain / basic tokenizers post-process only tokens whose export inserts separators')
+
+
+# --------------------------------------------------------------------------- effect-freedom of selected entry points
+def effect_free(ctx, rule, qualnames, what):
+    """No function reachable from the given entry points writes to an argument, a module-level mutable or a class attribute
+    (interprocedural effect analysis, see C14)."""
+    from ..effects import Effects
+    eng = Effects(ctx.prog)
+    fs = [ctx.prog.func(q) for q in qualnames]
+    eng.analyse(fs)
+    for f in fs:
+        s = eng.summary(f)
+        if s.unresolved:
+            k, v = sorted(s.unresolved.items())[0]
+            raise AnalysisError(f'{f.qualname}: unresolved call `{v}` at {k}')
+        seen = set()
+        for e in s.effects.values():
+            key = (e.loc, e.root[0])
+            if key in seen:
+                continue
+            seen.add(key)
+            if e.root[0] == 'p':
+                tgt = f'argument `{f.all_params[e.root[1]]}`' if e.root[1] < len(f.all_params) else 'an argument'
+            else:
+                tgt = f'shared state {e.root[1]}'
+            ctx.violation(rule, e.loc, f.qualname, f'write:{e.func.rpartition(".")[2]}:{" ".join(e.what.split())[:60]}:{e.root[0]}',
+                          f'{e.func} {e.what}: a write to {tgt} - {what}')
+        if not s.effects:
+            ctx.holds(rule, f.loc, f.qualname, f'effect-free ({len(eng.reachable(f))} reachable functions): {what}')
+    return eng
